@@ -101,6 +101,7 @@ class Report:
         for s in part.get('samples', []):
             if len(self.cov['samples']) < 6:
                 self.cov['samples'].append(s)
+        part.pop('_shapes', None)
         for k, v in part.get('extra', {}).items():
             if isinstance(v, (int, float)):
                 self.extra[k] = self.extra.get(k, 0) + v
